@@ -308,9 +308,14 @@ class ModelCacheMixin:
         results = self._get_batch_solutions(asts, n=n, extra_constraints=extra_constraints)
 
         # an eval-exhausted expression has all its values in the cache, but only for the stored constraints: the
-        # cached models that happen to satisfy extra constraints need not cover every value possible under them
+        # cached models that happen to satisfy extra constraints need not cover every value possible under them.
+        # Nor is there anything to take from the cache when no model was stored (a model over none of the solver's
+        # variables is not kept): eval(BVV(3, 4), 20) twice on a solver without variables returned () the second time
         if len(results) == n or (
-            len(extra_constraints) == 0 and len(asts) == 1 and asts[0].hash() in self._eval_exhausted
+            len(results) > 0
+            and len(extra_constraints) == 0
+            and len(asts) == 1
+            and asts[0].hash() in self._eval_exhausted
         ):
             return results
 
